@@ -650,6 +650,34 @@ def probes(seed):
             osd_state(aa.Imaging.apply_over_sampling.__defaults__[0]) == (("uniform", None), ("non_uniform", None), ("pixelization", None)))
     except Exception as e:
         rec("Determinism", "apply_over_sampling option objects", "no-exception-in-determinism-probe", False, note=f"{type(e).__name__}: {str(e)[:80]}")
+    # scheme objects and signature defaults shared between grids: what the second grid gets must be a function of the second
+    # grid alone (order independence), and caller-owned lists are left as they are
+    try:
+        def circ(shape, scale, origin, centre):
+            return aa.Mask2D.circular(shape_native=shape, radius=2.2 * scale, pixel_scales=scale, origin=origin, centre=centre)
+
+        g_a = aa.Grid2D.from_mask(mask=circ((9, 9), 1.0, (0.0, 0.0), (1.0, -1.0)))
+        g_b = aa.Grid2D.from_mask(mask=circ((9, 9), 1.0, (0.0, 0.0), (-1.0, 2.0)))
+        kw = dict(sub_size_list=[4, 2, 1], radial_list=[0.9, 1.9])
+        want_b = canon(aa.OverSamplingUniform.from_radial_bins(grid=g_b, centre_list=[g_b.mask.mask_centre], **kw).sub_size.array)
+        aa.OverSamplingUniform.from_radial_bins(grid=g_a, **kw)
+        got_b = canon(aa.OverSamplingUniform.from_radial_bins(grid=g_b, **kw).sub_size.array)
+        rec("Determinism", "OverSamplingUniform.from_radial_bins without centre_list on a second grid after a first", "equal-inputs-give-identical-results", got_b == want_b)
+        own = [(0.5, 0.5)]
+        aa.OverSamplingUniform.from_radial_bins(grid=g_a, centre_list=own, **kw)
+        rec("Construct", "OverSamplingUniform.from_radial_bins(centre_list=caller's list)", "constructors-leave-caller-owned-inputs-unchanged", own == [(0.5, 0.5)])
+        for order in ("first-then-second", "second-then-first"):
+            osu = aa.OverSamplingUniform(sub_size=2)
+            mk1, mk2 = circ((7, 7), 1.0, (0.0, 0.0), (0.0, 0.0)), circ((7, 7), 0.5, (3.0, -1.0), (0.0, 0.0))
+            gr = {1: aa.Grid2D.from_mask(mask=mk1, over_sampling=osu), 2: aa.Grid2D.from_mask(mask=mk2, over_sampling=osu)}
+            want = {k: canon(np.array(aa.OverSamplerUniform(mask=mk_, sub_size=2).over_sampled_grid)) for k, mk_ in ((1, mk1), (2, mk2))}
+            seq = (1, 2, 1) if order == "first-then-second" else (2, 1, 2)
+            ok = all(canon(np.array(gr[k].over_sampler.over_sampled_grid)) == want[k] for k in seq)
+            ok = ok and all(canon(np.array(osu.over_sampler_from(mask=mk_).over_sampled_grid)) == want[k] for k, mk_ in ((1, mk1), (2, mk2), (1, mk1)))
+            rec("Determinism", f"one OverSamplingUniform shared by two grids with equal mask pattern and different geometry ({order})",
+                "equal-inputs-give-identical-results", ok)
+    except Exception as e:
+        rec("Determinism", "shared over-sampling schemes", "no-exception-in-determinism-probe", False, note=f"{type(e).__name__}: {str(e)[:80]}")
     # deriving a noise-scaled dataset leaves the source dataset unchanged, whatever the storage mode of its arrays
     try:
         for sn in (False, True):
